@@ -48,6 +48,8 @@ def gen_cases(seed, tier):
              "seed": int(rng.integers(0, 2**31)),
              "depth": int(rng.integers(1, 5)), "act": str(rng.choice(["tanh", "gelu"])),
              "in_ch": int(rng.integers(1, 4)), "out_ch": int(rng.integers(1, 4))}
+        if i % 4 == 1:
+            c["field"] = "impulse" if i % 8 == 1 else "bump"
         cases.append(c)
     # resolution-consistency cases (single 1-D layer)
     m = 150 if tier == "quick" else 6000
@@ -113,6 +115,15 @@ def run_case(c):
     if c["kind"] == "resolution":
         return _resolution(c, net, res, tol)
     x = torch.randn((c["batch"], *c["res"], ch), generator=g, dtype=dt)
+    if c.get("field") in ("impulse", "bump"):
+        # localised fields: zero except for one node / a few neighbouring nodes in the interior (first and last node of
+        # every axis carry identical values); the shifts move the support over the ends of the grid
+        mask = torch.zeros((1, *c["res"], 1), dtype=dt)
+        idx = tuple(slice(max(1, r // 2 - (0 if c["field"] == "impulse" else 1)), min(r - 1, r // 2 + (1 if c["field"] == "impulse" else 2)))
+                    for r in c["res"])
+        mask[(0, *idx, 0)] = 1.0
+        x = x * mask
+        mech["field"] = c["field"]
     x0 = x.clone()
     v0 = x._version
     try:
